@@ -455,10 +455,61 @@ def structure_tracer():
     def FormFactor_coeffs(a1, a2, a3, a4, b1, b2, b3, b4, c, stl):
         proxy.formfactor = _FFTable([a1, a2, a3, a4, b1, b2, b3, b4, c])
         return st.FormFactor('X', stl)
+    class NsymInt(int):
+        """the integer 1 for range(), the symbol nsymop in arithmetic"""
+        pass
+
+    class _Atom(object):
+        pass
+
+    class _SgProxy(object):
+        stub = None
+
+        def sg(self, sgname=None, sgno=None, cell_choice='standard'):
+            return self.stub
+    sgproxy = _SgProxy()
+
+    def _sf_term(kind, hkl, ucell, rot, trans, pos, adp, occ, multi, nsymop, f, fp, fpp, with_disper=True):
+        one = NsymInt(1)
+        one._sym = nsymop
+        stub = _Atom()
+        stub.nsymop = one
+        r = _np.empty((1, 3, 3), dtype=object)
+        r[0] = _np.asarray(rot, dtype=object)
+        tt = _np.empty((1, 3), dtype=object)
+        tt[0] = _np.asarray(trans, dtype=object)
+        stub.rot, stub.trans = r, tt
+        sgproxy.stub = stub
+        a = _Atom()
+        a.adp_type, a.adp, a.atomtype, a.pos, a.occ, a.symmulti = kind, adp, 'X', _np.asarray(pos, dtype=object), occ, multi
+        saved = st.FormFactor
+        st.FormFactor = lambda atomtype, stl: f
+        try:
+            out = st.StructureFactor(_np.asarray(hkl, dtype=object), ucell, 'anything', [a], {'X': [fp, fpp]} if with_disper else None)
+        finally:
+            st.FormFactor = saved
+        return _np.array([out[0], out[1]], dtype=object)
+
+    def sf_term_uiso(hkl, ucell, rot, trans, pos, U, occ, multi, nsymop, f, fp, fpp):
+        return _sf_term('Uiso', hkl, ucell, rot, trans, pos, U, occ, multi, nsymop, f, fp, fpp)
+
+    def sf_term_uani(hkl, ucell, rot, trans, pos, adp, occ, multi, nsymop, f, fp, fpp):
+        return _sf_term('Uani', hkl, ucell, rot, trans, pos, list(adp), occ, multi, nsymop, f, fp, fpp)
+
+    def sf_term_noadp(hkl, ucell, rot, trans, pos, occ, multi, nsymop, f, fp, fpp):
+        return _sf_term(None, hkl, ucell, rot, trans, pos, 0.0, occ, multi, nsymop, f, fp, fpp)
+
+    def sf_term_nodisp(hkl, ucell, rot, trans, pos, U, occ, multi, nsymop, f):
+        return _sf_term('Uiso', hkl, ucell, rot, trans, pos, U, occ, multi, nsymop, f, 0.0, 0.0, with_disper=False)
     sigs = [('FormFactor_coeffs', ['R'] * 10, 'R'),
-            ('Uij2betaij', ['V6', 'V6'], 'M3')]
-    return ModuleTracer('xfab.structure', 'structure_', sigs, 'n', patches={'atomlib': proxy},
-                        extra_defs={'FormFactor_coeffs': FormFactor_coeffs})
+            ('Uij2betaij', ['V6', 'V6'], 'M3'),
+            ('sf_term_uiso', ['V3', 'V6', 'M3', 'V3', 'V3', 'R', 'R', 'R', 'R', 'R', 'R', 'R'], 'V2'),
+            ('sf_term_uani', ['V3', 'V6', 'M3', 'V3', 'V3', 'V6', 'R', 'R', 'R', 'R', 'R', 'R'], 'V2'),
+            ('sf_term_noadp', ['V3', 'V6', 'M3', 'V3', 'V3', 'R', 'R', 'R', 'R', 'R', 'R'], 'V2'),
+            ('sf_term_nodisp', ['V3', 'V6', 'M3', 'V3', 'V3', 'R', 'R', 'R', 'R', 'R'], 'V2')]
+    return ModuleTracer('xfab.structure', 'structure_', sigs, 'n', patches={'atomlib': proxy, 'sg': sgproxy},
+                        extra_defs={'FormFactor_coeffs': FormFactor_coeffs, 'sf_term_uiso': sf_term_uiso, 'sf_term_uani': sf_term_uani,
+                                    'sf_term_noadp': sf_term_noadp, 'sf_term_nodisp': sf_term_nodisp})
 
 
 def symmetry_tracer():
